@@ -15,7 +15,7 @@ RULE = ("groups built from dicts/lists of Ts / Tsd / raw arrays with unsorted, n
 PROVED = ("new_keys, new_member (sort keeps data under its key), new_rejects_dup, new_support_given/union, new_members_restricted, "
           "select_member / select_preserves / select_rejects_missing, restrict_member, get_member, merge_member / merge_rejects_overlap / mergeN_supports / mergeN_member / mergeN_single, "
           "toTsd_toTsgroup_any_sort (any sorting permutation), restrictTo_self")
-NOT_PROVED = ("pointwise characterisation of the n-ary union kernel (correspondence + oracle; C02), key conversion from str/float (harness "
+NOT_PROVED = ("key conversion from str/float (harness "
               "passes integer values), rate arithmetic (definitional), group-level count/value_from/trial_count == per member (oracle)")
 ASSUMPTIONS = ["members are well-formed series (C04)"]
 SC = 10**9
